@@ -314,7 +314,13 @@ def order_monitor(ctx):
     base = [cyc.gen_cyclic(ctx.rng)[0] for _ in range(n)]
     base += [{"mods": {"file:///w/main.oal": s}, "main": "file:///w/main.oal"} for s in
              ["let d = { 'd d };\nlet r = { a };\nlet a = 'x { b, 'z r };\nlet b = 'y { a };\nres /d on get -> d;\n",
-              "let item = { 'n num };\nlet code = 200;\nlet f x = { 'items [x] };\nlet items = f item;\nres /i on get -> <status=code, items>;\n"]]
+              "let item = { 'n num };\nlet code = 200;\nlet f x = { 'items [x] };\nlet items = f item;\nres /i on get -> <status=code, items>;\n",
+              # two defects of different origin in one program (an infinite type and a kind mismatch; an arity error and an
+              # infinite type; ...): the class of the error reported is the same whichever declaration comes first
+              "let f x = f;\nlet c = concat num /a;\nres /;\n",
+              "let a = 'p a;\nlet c = { 5XX };\nres / on get -> <c>;\n",
+              "let g x y = x;\nlet h = g num;\nlet f x = f;\nlet u = h str str;\nres / on get -> <u>;\n",
+              "let f x = [f];\nlet k = num & str;\nlet z = <status=k>;\nres / on get -> z;\n"]]
     perm = []
     for p in base:
         lines = p["mods"][p["main"]].split("\n")
